@@ -4,6 +4,8 @@ open Martian.Props.C08
 #print axioms control_frames_identical
 #print axioms data_split_faithful
 #print axioms chunks_concat
+#print axioms header_block_frames_fit
+#print axioms push_block_frames_fit
 #print axioms accepted_is_image_of_calls
 #print axioms per_stream_order_and_content
 #print axioms header_blocks_leave_in_encode_order_counterexample
